@@ -82,74 +82,6 @@ pub open spec fn wc_key(p: Seq<char>) -> Seq<char> { "%"@ + p + "%"@ }
 pub axiom fn axiom_prop_names(n: Seq<char>)
     requires prop_index(n) is Some
     ensures n.len() > 0, forall|i: int| 0 <= i < n.len() ==> #[trigger] n[i] != '(' && n[i] != ')' && n[i] != '{' && n[i] != '}' && n[i] != '%';
-pub open spec fn inert(s: Seq<char>) -> bool { forall|i: int| 0 <= i < s.len() ==> #[trigger] s[i] != '(' && s[i] != ')' && s[i] != '{' }
-// text without parentheses and braces is copied unchanged
-pub proof fn lemma_scan_inert(st: SS, fuel: nat)
-    requires inert(st.rest), fuel >= st.rest.len()
-    ensures scan(st, fuel) == (SS { rest: Seq::<char>::empty(), out: st.out + st.rest, m: st.m, n: st.n })
-    decreases st.rest.len()
-{
-    if st.rest.len() == 0 {
-        assert(st.out + st.rest =~= st.out);
-        assert(st.rest =~= Seq::<char>::empty());
-    } else {
-        let ch = st.rest[0];
-        let r = st.rest.drop_first();
-        assert(ch != '(' && ch != ')' && ch != '{');
-        if r.len() > 0 { assert(r[0] == st.rest[1]); }
-        assert forall|i: int| 0 <= i < r.len() implies #[trigger] r[i] != '(' && r[i] != ')' && r[i] != '{' by { assert(r[i] == st.rest[i + 1]); }
-        let s1 = SS { rest: r, out: st.out.push(ch), ..st };
-        lemma_scan_inert(s1, (fuel - 1) as nat);
-        assert(st.out.push(ch) + r =~= st.out + st.rest);
-    }
-}
-// the output only grows
-pub open spec fn is_prefix(a: Seq<char>, b: Seq<char>) -> bool { a.len() <= b.len() && forall|i: int| 0 <= i < a.len() ==> a[i] == b[i] }
-pub proof fn lemma_prefix_trans(a: Seq<char>, b: Seq<char>, c: Seq<char>)
-    requires is_prefix(a, b), is_prefix(b, c)
-    ensures is_prefix(a, c)
-{
-    assert forall|i: int| 0 <= i < a.len() implies a[i] == c[i] by { assert(a[i] == b[i]); assert(b[i] == c[i]); }
-}
-pub proof fn lemma_scan_prefix(st: SS, fuel: nat)
-    ensures is_prefix(st.out, scan(st, fuel).out)
-    decreases fuel
-{
-    if fuel == 0 || st.rest.len() == 0 { } else {
-        let ch = st.rest[0];
-        let r = st.rest.drop_first();
-        let f1 = (fuel - 1) as nat;
-        if ch == '(' {
-            let s1 = SS { rest: r, out: st.out.push('('), ..st };
-            lemma_scan_prefix(s1, f1);
-            lemma_scan_prefix(scan(s1, f1), f1);
-            assert(is_prefix(st.out, s1.out));
-            lemma_prefix_trans(st.out, s1.out, scan(s1, f1).out);
-            lemma_prefix_trans(st.out, scan(s1, f1).out, scan(scan(s1, f1), f1).out);
-        } else if ch == ')' {
-            assert(is_prefix(st.out, st.out.push(')')));
-        } else if is_quant(ch) && r.len() > 0 && r[0] == '{' {
-            let r2 = r.drop_first();
-            let s1 = SS { rest: drop_until(r2), out: st.out + seq![ch] + "{"@ + vname(st.n) + "}"@, m: st.m.insert(take_until(r2), vname(st.n)), n: st.n + 1 };
-            lemma_scan_prefix(s1, f1);
-            assert(is_prefix(st.out, s1.out));
-            lemma_prefix_trans(st.out, s1.out, scan(s1, f1).out);
-        } else if ch == '{' {
-            let name = take_until(r);
-            let m2 = if st.m.contains_key(name) { st.m } else { st.m.insert(name, vname(st.n)) };
-            let n2 = if st.m.contains_key(name) { st.n } else { st.n + 1 };
-            let s1 = SS { rest: drop_until(r), out: st.out + "{"@ + m2[name] + "}"@, m: m2, n: n2 };
-            lemma_scan_prefix(s1, f1);
-            assert(is_prefix(st.out, s1.out));
-            lemma_prefix_trans(st.out, s1.out, scan(s1, f1).out);
-        } else {
-            let s1 = SS { rest: r, out: st.out.push(ch), ..st };
-            lemma_scan_prefix(s1, f1);
-            assert(is_prefix(st.out, s1.out));
-            lemma_prefix_trans(st.out, s1.out, scan(s1, f1).out);
-        }
-    }
-}
 // the first character of the canonical form of a non-empty text is its first character
 pub proof fn lemma_canon_first(s: Seq<char>)
     requires s.len() > 0
